@@ -267,11 +267,15 @@ func (ex *Exec) sliceLiteral(st *State, ty types.Type, vs []Val) Val {
 func (ex *Exec) invoke(st *State, ct *callTarget, k func(*State, []Val)) {
 	if st.frame.fi == ex.top && st.frame.closure == nil && ex.top.Spec != nil && len(ex.top.Spec.Anchors) > 0 && ct.call != nil {
 		name, ord := ex.callAnchor(ct)
-		ex.runAnchors(st, "before", name, ord)
+		if ex.runAnchors(st, "before", name, ord) {
+			return // `assume false`: the path is cut here (reported as an assumption)
+		}
 		k0 := k
 		k = func(st *State, vs []Val) {
 			if st.frame.fi == ex.top && st.frame.closure == nil {
+				ex.anchorResults = vs
 				ex.runAnchors(st, "after", name, ord)
+				ex.anchorResults = nil
 			}
 			k0(st, vs)
 		}
@@ -310,7 +314,7 @@ func calleeName(c *ast.CallExpr) string {
 	return "?"
 }
 
-func (ex *Exec) runAnchors(st *State, when, name string, ord int) {
+func (ex *Exec) runAnchors(st *State, when, name string, ord int) (cut bool) {
 	for _, an := range ex.top.Spec.Anchors {
 		if an.When != when || an.Callee != name || an.Ord != ord {
 			continue
@@ -318,6 +322,12 @@ func (ex *Exec) runAnchors(st *State, when, name string, ord int) {
 		env := ex.specEnvFor(st, ex.top)
 		for k, v := range st.frame.ghost {
 			env.bind[k] = v
+		}
+		for i, v := range ex.anchorResults {
+			env.bind[fmt.Sprintf("callresult%d", i)] = v
+			if i == 0 {
+				env.bind["callresult"] = v
+			}
 		}
 		func() {
 			defer ex.specRecover("anchored clause in " + ex.top.Key)
@@ -329,10 +339,15 @@ func (ex *Exec) runAnchors(st *State, when, name string, ord int) {
 				st.assume(env.boolTerm(an.E))
 			case "assume":
 				ex.w.assumed["assume in "+ex.top.FullName()+" "+when+" call "+name+": "+an.Src] = true
-				st.assume(env.boolTerm(an.E))
+				t := env.boolTerm(an.E)
+				st.assume(t)
+				if t == "false" {
+					cut = true
+				}
 			}
 		}()
 	}
+	return cut
 }
 
 func (ex *Exec) invoke1(st *State, ct *callTarget, k func(*State, []Val)) {
@@ -868,6 +883,28 @@ func (ex *Exec) callContract(st *State, c *Contract, fi *FuncInfo, ct *callTarge
 		}
 		func() {
 			defer ex.specRecover("ensures of " + name)
+			// ghost locals of the callee are witnesses chosen by the callee: fresh constants here
+			for _, g := range c.GhostInit {
+				if id, ok := g.LHS.(*SIdent); ok {
+					if _, bound := penv.bind[id.Name]; bound {
+						continue
+					}
+					var srt *Sort
+					if lam, isLam := g.RHS.(*SLambda); isLam {
+						cenv := penv.child()
+						_, vs := penv.resolveType(lam.Vars[0].Type)
+						cenv.bind[lam.Vars[0].Name] = Val{T: "dummy_lam", S: vs}
+						body := cenv.eval(lam.Body)
+						srt = ex.w.mapGSort(vs, body.S)
+						if vs.Kind == KInt {
+							srt = ex.w.seqSort(body.S)
+						}
+					} else {
+						srt = penv.with(pre).eval(g.RHS).S
+					}
+					penv.bind[id.Name] = Val{T: ex.w.freshConst("wit_"+id.Name, srt), S: srt}
+				}
+			}
 			for _, g := range c.Ghosts {
 				// ghost updates are part of the callee's effect: callers see them as equalities
 				penv.ghostAssume(g)
@@ -1154,6 +1191,11 @@ func (ex *Exec) writeSetOf(fr *Frame, nodes []ast.Node) *writeSet {
 			case *ast.IncDecStmt:
 				addLHS(x.X, info, tsub, local)
 			case *ast.RangeStmt:
+				if tv, ok := info.Types[x.X]; ok {
+					if _, isChan := types.Unalias(substType(tv.Type, tsub)).Underlying().(*types.Chan); isChan {
+						ex.chanWriteKeysT(ws, substType(tv.Type, tsub))
+					}
+				}
 				if x.Key != nil {
 					addLHS(x.Key, info, tsub, local)
 				}
@@ -1175,10 +1217,18 @@ func (ex *Exec) writeSetOf(fr *Frame, nodes []ast.Node) *writeSet {
 					ws.keys["alloc"] = ex.w.setSort(sRef)
 				}
 				if x.Op == token.ARROW {
-					ex.chanWriteKeys(ws)
+					if tv, ok := info.Types[x.X]; ok {
+						ex.chanWriteKeysT(ws, substType(tv.Type, tsub))
+					} else {
+						ex.chanWriteKeys(ws)
+					}
 				}
 			case *ast.SendStmt:
-				ex.chanWriteKeys(ws)
+				if tv, ok := info.Types[x.Chan]; ok {
+					ex.chanWriteKeysT(ws, substType(tv.Type, tsub))
+				} else {
+					ex.chanWriteKeys(ws)
+				}
 			case *ast.FuncLit:
 				return true
 			case *ast.CallExpr:
@@ -1221,7 +1271,11 @@ func (ex *Exec) writeSetOf(fr *Frame, nodes []ast.Node) *writeSet {
 								}
 							}
 						case "close":
-							ex.chanWriteKeys(ws)
+							if tv, ok := info.Types[x.Args[0]]; ok {
+								ex.chanWriteKeysT(ws, substType(tv.Type, tsub))
+							} else {
+								ex.chanWriteKeys(ws)
+							}
 						}
 						return true
 					}
@@ -1603,6 +1657,28 @@ func typeInstances(fi *FuncInfo) ([]map[*types.TypeParam]types.Type, []string) {
 	}
 	insts := []map[*types.TypeParam]types.Type{{}}
 	names := []string{""}
+	if fi.Spec != nil {
+		for _, ak := range fi.Spec.AnyKinds {
+			for _, tp := range tps {
+				if tp.Obj().Name() != ak {
+					continue
+				}
+				var ni []map[*types.TypeParam]types.Type
+				var nn []string
+				for i, m := range insts {
+					c1 := map[*types.TypeParam]types.Type{}
+					c2 := map[*types.TypeParam]types.Type{}
+					for k, v := range m {
+						c1[k], c2[k] = v, v
+					}
+					c2[tp] = types.NewInterfaceType(nil, nil).Complete()
+					ni = append(ni, c1, c2)
+					nn = append(nn, names[i]+"<"+ak+":concrete>", names[i]+"<"+ak+":interface>")
+				}
+				insts, names = ni, nn
+			}
+		}
+	}
 	for _, tp := range tps {
 		iface, ok := tp.Constraint().Underlying().(*types.Interface)
 		if !ok || iface.NumEmbeddeds() != 1 || iface.NumExplicitMethods() != 0 {
